@@ -239,6 +239,7 @@ partial def valStr (names : List GoTy) : Val → String
   | .arr es => paren ("a" :: es.map (valStr names))
   | .hsh es => paren ("h" :: es.map fun kv => paren [valStr names kv.1, valStr names kv.2])
   | .obj S _ g => paren ["o", objName names S, valStr names (.hsh (initHash (objFVs S g)))]
+  | .rt t g => paren ["rt", tyStr t, goStr g]
 
 partial def ptyStr (names : List GoTy) : Ty → String
   | .int lo hi => s!"(int {lo} {hi})" | .float w => s!"(float {w})" | .str => "str" | .bool => "bool"
